@@ -54,6 +54,8 @@ type Input struct {
 	Src       string   `json:"src"`
 	Overwrite bool     `json:"overwrite"`
 	Trusted   bool     `json:"trusted"`
+	Cwd       string   `json:"cwd"`     // working directory of the process while the calls are made ("" = wherever the harness runs)
+	Path      []string `json:"path"`    // directories put in front of PATH while the calls are made
 	History   []string `json:"history"` // earlier steps on the same manager: install | uninstall | get | touchSrc | dropSrc
 	FS        []Node   `json:"fs"`
 }
@@ -251,7 +253,7 @@ func script(marker, metaName string, ver int) []byte {
 		"supportedContractVersions": []string{"1.0"},
 		"capabilities":              []string{"SIGNATURE_VERIFIER.TRUSTED_IDENTITY"},
 	})
-	return []byte("#!/bin/sh\nprintf '%s\\n' \"$0\" >> '" + marker + "'\ncase \"$1\" in\nget-plugin-metadata) cat <<'C16EOF'\n" + string(meta) +
+	return []byte("#!/bin/sh\nprintf '%s\\037%s\\n' \"$PWD\" \"$0\" >> '" + marker + "'\ncase \"$1\" in\nget-plugin-metadata) cat <<'C16EOF'\n" + string(meta) +
 		"\nC16EOF\n;;\nverify-signature) cat <<'C16EOF'\n" +
 		`{"verificationResults":{"SIGNATURE_VERIFIER.TRUSTED_IDENTITY":{"success":true}},"processedAttributes":[]}` +
 		"\nC16EOF\n;;\nesac\n")
@@ -362,17 +364,32 @@ func climbs(name string) int {
 }
 
 // safe: no reading of the name leaves the sandbox (it stays at least one level below its top).
-func safe(root, name string) bool {
-	depth := len(strings.Split(strings.Trim(path.Clean(root), "/"), "/"))
-	return climbs(name) < depth+jailDepth-1
+func safe(in Input, name string) bool {
+	depth := len(strings.Split(strings.Trim(absRoot(in.Cwd, in.Root), "/"), "/"))
+	return climbs(name)+climbs(in.Root) < depth+jailDepth-1
 }
+
+// absRoot: the plugin root as an absolute clean path (a relative root is relative to the working directory).
+func absRoot(cwd, root string) string {
+	if path.IsAbs(root) {
+		return path.Clean(root)
+	}
+	return path.Clean(cwd + "/" + root)
+}
+
+// serial: the case changes process-wide state (working directory, PATH) or executes a file written
+// in the same case - it runs while no other case does
+func serial(in Input) bool { return len(in.History) > 0 || in.Cwd != "" || len(in.Path) > 0 }
 
 // runCase queues a case; tags are distribution counters of the generator.
 func (e *env) runCase(in Input, tags ...string) error {
 	if !utf8.ValidString(in.Name) || !utf8.ValidString(in.Root) {
 		return fmt.Errorf("generator produced invalid UTF-8")
 	}
-	if !safe(in.Root, effectiveName(in)) {
+	if in.Path == nil {
+		in.Path = []string{}
+	}
+	if !safe(in, effectiveName(in)) {
 		e.c.Count("skipped=would-leave-the-sandbox")
 		return nil
 	}
@@ -437,14 +454,14 @@ func (e *env) execAll() error {
 		}
 		parallel(lo, hi, func(k int) { e.jobs[k].err = e.prepare(k, e.jobs[k]) })
 		parallel(lo, hi, func(k int) {
-			if e.jobs[k].err == nil && len(e.jobs[k].in.History) == 0 {
+			if e.jobs[k].err == nil && !serial(e.jobs[k].in) {
 				e.jobs[k].obs, e.jobs[k].err = e.execCase(k, e.jobs[k])
 			}
 		})
 		// histories install an executable and run it later in the same case: one at a time, so that no
 		// other goroutine forks while the copy is open for writing (ETXTBSY, see above)
 		for k := lo; k < hi; k++ {
-			if e.jobs[k].err == nil && len(e.jobs[k].in.History) > 0 {
+			if e.jobs[k].err == nil && serial(e.jobs[k].in) {
 				e.jobs[k].obs, e.jobs[k].err = e.execCase(k, e.jobs[k])
 			}
 		}
@@ -496,7 +513,7 @@ func (e *env) marker(k int) string  { return filepath.Join(e.work, fmt.Sprintf("
 // prepare builds the world of a case and snapshots it.
 func (e *env) prepare(k int, j *job) error {
 	caseDir := e.caseDir(k)
-	if !safe(j.in.Root, effectiveName(j.in)) {
+	if !safe(j.in, effectiveName(j.in)) {
 		return fmt.Errorf("unsafe case reached execution: %q %q", j.in.Root, j.in.Name)
 	}
 	if err := os.MkdirAll(caseDir, 0o755); err != nil {
@@ -533,7 +550,31 @@ func (e *env) execCase(k int, j *job) (o Obs, herr error) {
 	sandbox, caseDir, marker := e.sandbox(k), e.caseDir(k), e.marker(k)
 	ctx, cancel := context.WithTimeout(context.Background(), 30*time.Second)
 	defer cancel()
-	mgr := plugin.NewCLIManager(dir.NewSysFS(caseDir + in.Root))
+	// process-wide state of the case (serial cases only): working directory and PATH
+	if in.Cwd != "" {
+		old, err := os.Getwd()
+		if err != nil {
+			return o, err
+		}
+		if err := os.Chdir(caseDir + in.Cwd); err != nil {
+			return o, fmt.Errorf("chdir: %w", err)
+		}
+		defer os.Chdir(old)
+	}
+	if len(in.Path) > 0 {
+		old := os.Getenv("PATH")
+		var dirs []string
+		for _, d := range in.Path {
+			dirs = append(dirs, caseDir+d)
+		}
+		os.Setenv("PATH", strings.Join(dirs, ":")+":"+old)
+		defer os.Setenv("PATH", old)
+	}
+	realRoot := in.Root // a relative root stays relative: that is the configuration under test
+	if path.IsAbs(in.Root) {
+		realRoot = caseDir + in.Root
+	}
+	mgr := plugin.NewCLIManager(dir.NewSysFS(realRoot))
 	src := in.Src
 	if src != "" {
 		src = caseDir + src
@@ -658,7 +699,12 @@ func (e *env) execCase(k int, j *job) (o Obs, herr error) {
 	seen := map[string]bool{}
 	if b, err := os.ReadFile(marker); err == nil && len(b) > markerOffset {
 		for _, l := range strings.Split(strings.TrimSuffix(string(b[markerOffset:]), "\n"), "\n") {
-			a := abstract(sandbox, caseDir, l)
+			// "<working directory of the script>\x1f<$0>": a relative $0 is relative to where the script ran
+			pwd, arg0, _ := strings.Cut(l, "\x1f")
+			if !filepath.IsAbs(arg0) {
+				arg0 = filepath.Join(pwd, arg0)
+			}
+			a := abstract(sandbox, caseDir, filepath.Clean(arg0))
 			if !seen[a] {
 				seen[a] = true
 				o.Executed = append(o.Executed, a)
@@ -778,6 +824,8 @@ func applyVariant(w *world, rc, name, variant string, ver int) {
 		w.put(x, "exec", ver)
 		w.put(path.Join(d, "LICENSE"), "file", 2)
 		siblings(w, rc, name)
+	case "emptyDir": // left by a failed installation
+		w.dirAll(d)
 	case "siblingsOnly": // the same neighbourhood, the plugin itself not installed
 		siblings(w, rc, name)
 	case "pluginWithLinks": // a working plugin next to links named like the package's other files
@@ -991,6 +1039,136 @@ func (e *env) historyCases(names []string, rootSet []string, full bool) error {
 	return nil
 }
 
+// relativeRootCases: the plugin root is a relative path and the process works somewhere inside the
+// sandbox. The manager must behave as with Join(cwd, root): in particular the executable that runs
+// is <cwd>/<root>/<name>/notation-<name> - not what that relative path means from another directory
+// (sentinels sit where it leads from <root>/<name>, the plugin's own directory, from <root> and from "/").
+func (e *env) relativeRootCases(full bool) error {
+	const cwd = "/h/u/w/d"
+	relRoots := []string{"plugins", ".notation/plugins", "../plugins", "../../lib/plugins", ".", "a/../plugins"}
+	names := []string{"my.plugin", "plugins", "lib", "..", "a\\b"}
+	if full {
+		relRoots = append(relRoots, "../../../x/plugins", "./plugins/", "../d/plugins")
+		names = append(names, "a b", "../victim", "d")
+	}
+	ops := []string{"get", "verify", "uninstall", "install", "list"}
+	for ri, root := range relRoots {
+		ar := absRoot(cwd, root)
+		for ni, name := range names {
+			for _, present := range []string{"absent", "plugin", "pluginWithSiblings"} {
+				if present == "pluginWithSiblings" && !full && (ri+ni)%3 != 0 {
+					continue
+				}
+				for oi, op := range ops {
+					if op == "list" && (ni > 0 || present != "plugin") {
+						continue
+					}
+					w := baseWorld(ar, name)
+					w.dirAll(cwd)
+					w.dirAll(cwd + "/a")
+					if validName(name) && fsLegal("notation-"+name) {
+						applyVariant(w, ar, name, present, 1)
+						// where the relative executable path leads when it is resolved from another directory
+						rel := path.Join(root, name, "notation-"+name)
+						for _, from := range []string{path.Join(ar, name), ar, "/", path.Dir(ar), cwd + "/a"} {
+							if t := path.Join(from, rel); t != path.Join(ar, name, "notation-"+name) && plantable(t) {
+								w.put(t, "exec", 9)
+							}
+						}
+					}
+					in := Input{Op: op, Root: root, Cwd: cwd, Name: name, FS: nil, Overwrite: (ri+oi)%2 == 0}
+					if op == "install" {
+						in.Src = "/dl/notation-" + name
+						if !fsLegal("notation-"+name) || strings.ContainsAny(name, "/\x00") {
+							continue
+						}
+						w.put(in.Src, "exec", 2)
+					}
+					in.FS = w.list()
+					if err := e.runCase(in, "relative-root="+root); err != nil {
+						return err
+					}
+					// and after an installation on the same manager
+					if op == "get" && validName(name) && (full || ni < 2) {
+						w.put("/dl/notation-"+name, "exec", 2)
+						in2 := in
+						in2.Src, in2.FS, in2.History = "/dl/notation-"+name, w.list(), []string{"install"}
+						if err := e.runCase(in2, "relative-root="+root); err != nil {
+							return err
+						}
+					}
+				}
+			}
+		}
+	}
+	return nil
+}
+
+// pathCases: the PATH is part of the world. Directories at its front hold executables called
+// notation-<name>; whether <name> is installed, was left as an empty directory or is unknown to the
+// root, nothing of the PATH may ever run (or be treated as the installed plugin by Install).
+func (e *env) pathCases(full bool) error {
+	names := []string{"my.plugin", "good", "..", "sh", "a b"}
+	if full {
+		names = append(names, "victim", "a\\b", "cat")
+	}
+	states := []string{"absent", "emptyDir", "dirOnly", "plugin", "exeIsSymnone", "exeIsDir"}
+	type obsOp struct {
+		op      string
+		history []string
+	}
+	ops := []obsOp{{"get", nil}, {"verify", nil}, {"install", nil}, {"uninstall", nil}, {"get", []string{"install"}}, {"get", []string{"install", "uninstall"}},
+		{"verify", []string{"get"}}, {"install", []string{"get"}}, {"list", nil}}
+	for ri, root := range []string{"/a/p", "/a/b/p/", "plugins"} {
+		for ni, name := range names {
+			if !fsLegal("notation-" + name) {
+				continue
+			}
+			for si, st := range states {
+				for oi, oo := range ops {
+					if !full && (ri+ni+si+oi)%2 == 1 && !(oo.op == "get" && oo.history == nil) {
+						continue
+					}
+					if oo.op == "list" && (si > 0 || ni > 1) {
+						continue
+					}
+					cwd := ""
+					if !path.IsAbs(root) {
+						cwd = "/h/u"
+					}
+					ar := absRoot(cwd, root)
+					w := baseWorld(ar, name)
+					if cwd != "" {
+						w.dirAll(cwd)
+					}
+					if validName(name) && name != "good" {
+						applyVariant(w, ar, name, st, 1)
+					}
+					w.dirAll("/opt/empty")
+					w.put("/opt/pbin/notation-"+name, "exec", 5)
+					w.put("/opt/pbin/notation-good", "exec", 5)
+					w.put("/usr/xbin/notation-"+name, "exec", 6)
+					for ov := 0; ov < 2; ov++ {
+						if oo.op != "install" && ov == 1 {
+							continue
+						}
+						in := Input{Op: oo.op, Root: root, Cwd: cwd, Name: name, Path: []string{"/opt/empty", "/opt/pbin", "/usr/xbin"}, History: oo.history, Overwrite: ov == 1}
+						if oo.op == "install" || len(oo.history) > 0 {
+							in.Src = "/dl/notation-" + name
+							w.put(in.Src, "exec", 2)
+						}
+						in.FS = w.list()
+						if err := e.runCase(in, "path-world="+st); err != nil {
+							return err
+						}
+					}
+				}
+			}
+		}
+	}
+	return nil
+}
+
 func (e *env) listCases() error {
 	entries := [][]spec{
 		{},
@@ -1053,6 +1231,23 @@ func Run(c *common.Ctx) error {
 	if e.work, err = filepath.Abs(c.WorkDir); err != nil {
 		return err
 	}
+	// The cases create and delete some hundred thousand small files. On the journalled disk that
+	// holds c.WorkDir this is dominated by kernel time (and by whoever else uses the disk): the same
+	// run takes 10 s on a memory file system and 75 s and more there. When /dev/shm is available the
+	// sandboxes live in a private directory there, removed when the run ends (stale ones of killed
+	// runs after two hours); everything else stays in c.WorkDir.
+	if d, derr := os.MkdirTemp("/dev/shm", "xverif-c16-"); derr == nil {
+		defer os.RemoveAll(d)
+		e.work = d
+		if old, _ := filepath.Glob("/dev/shm/xverif-c16-*"); old != nil {
+			for _, o := range old {
+				if fi, err := os.Stat(o); err == nil && o != d && time.Since(fi.ModTime()) > 2*time.Hour {
+					os.RemoveAll(o)
+				}
+			}
+		}
+		c.Note("sandboxes on /dev/shm")
+	}
 	e.chain = common.MakeChain(common.ChainOpts{Tag: "c16"})
 	e.other = common.MakeChain(common.ChainOpts{Tag: "c16 other"})
 	e.desc = ocispec.Descriptor{MediaType: ocispec.MediaTypeImageManifest, Digest: digest.FromString("c16 artifact"), Size: 12}
@@ -1112,6 +1307,13 @@ func Run(c *common.Ctx) error {
 		histNames = append(histNames, "a b", "a\\b")
 	}
 	if err := e.historyCases(histNames, []string{"/a/p", "/a/b/p/"}, c.Thorough()); err != nil {
+		return err
+	}
+	// 4c. process-wide configuration: relative plugin roots (working directory) and the PATH
+	if err := e.relativeRootCases(c.Thorough()); err != nil {
+		return err
+	}
+	if err := e.pathCases(c.Thorough()); err != nil {
 		return err
 	}
 	// 5. random names from the grammar
